@@ -584,7 +584,16 @@ func (m *Mux) serveGRPC(w http.ResponseWriter, r *http.Request) {
 	herr := hd.handler(&m.opts, stream)
 	if !stream.sentHeader {
 		if err := stream.SendHeader(nil); err != nil {
-			return // ctx canceled
+			// ctx canceled: nothing more can be sent, the RPC still ends.
+			if sh := m.opts.statsHandler; sh != nil {
+				sh.HandleRPC(ctx, &stats.End{
+					Client:    false,
+					BeginTime: beginTime,
+					EndTime:   time.Now(),
+					Error:     herr,
+				})
+			}
+			return
 		}
 	}
 	flusher.Flush()
